@@ -186,31 +186,42 @@ theorem body_replay (d : Db) (op : Op) (out : Out) (h : (step d op).2 = .ok out)
           split at h
           · simp at h
           · rename_i h1
-            split at h
-            · simp at h
-            · rename_i h2
-              simp only [h1, h2, if_false] at h ⊢
+            simp only [h1, if_false] at h ⊢
+            cases hdesc : descendantIds d.pl c with
+            | throw e => simp [hdesc] at h
+            | ub u => simp [hdesc] at h
+            | ok ds =>
+              simp only [hdesc] at h ⊢
               split at h
-              · rename_i hk
-                simp only [hk, if_true, body, hg, writesOf, applyAll, wPlUpdate, Option.bind]
-                rw [okState_of_ok _ out h]; simp
-              · rename_i hk
-                simp only [hk, Bool.false_eq_true, if_false, body, hg, writesOf, applyAll, wPlUpdate, Option.bind]
-                rw [okState_of_ok _ out h]
+              · simp at h
+              · rename_i h2
+                simp only [h2, if_false] at h ⊢
+                split at h
+                · rename_i hk
+                  simp only [hk, if_true, body, hg, writesOf, applyAll, wPlUpdate, Option.bind]
+                  rw [okState_of_ok _ out h]; simp
+                · rename_i hk
+                  simp only [hk, Bool.false_eq_true, if_false, body, hg, writesOf, applyAll, wPlUpdate, Option.bind]
+                  rw [okState_of_ok _ out h]
   | removeCrate c =>
     simp only [step] at h ⊢
     split at h
     · simp at h
     · rename_i he
-      simp only [he, if_false, body, writesOf, writesOf_append, plRemove]
-      have e1 : (c :: descendantIds d.pl c).map wClearKey =
-          (c :: descendantIds d.pl c).map fun l => tot (fun d : Db => { d with pe := clearKey fires d.pe l }) := rfl
-      have e2 : (c :: descendantIds d.pl c).map wDeleteList =
-          (c :: descendantIds d.pl c).map fun i => tot (fun d : Db => { d with pl := deleteCascade d.pl i }) := rfl
-      rw [e1, e2, writesOf_map_tot, writesOf_map_tot]
-      rw [applyAll_append' _ _ _ _ (applyAll_map_tot _ _ _), applyAll_map_tot]
-      rw [foldl_pe _ (fun pe l => clearKey fires pe l), foldl_pl _ (fun pl i => deleteCascade pl i)]
-      simp
+      simp only [he, if_false] at h ⊢
+      cases hdesc : descendantIds d.pl c with
+      | throw e => simp [hdesc] at h
+      | ub u => simp [hdesc] at h
+      | ok ds =>
+        simp only [hdesc, body, removedBelow, writesOf, writesOf_append, plRemove]
+        have e1 : (c :: ds).map wClearKey =
+            (c :: ds).map fun l => tot (fun d : Db => { d with pe := clearKey fires d.pe l }) := rfl
+        have e2 : (c :: ds).map wDeleteList =
+            (c :: ds).map fun i => tot (fun d : Db => { d with pl := deleteCascade d.pl i }) := rfl
+        rw [e1, e2, writesOf_map_tot, writesOf_map_tot]
+        rw [applyAll_append' _ _ _ _ (applyAll_map_tot _ _ _), applyAll_map_tot]
+        rw [foldl_pe _ (fun pe l => clearKey fires pe l), foldl_pl _ (fun pl i => deleteCascade pl i)]
+        simp
   | createTrack =>
     simp [body, writesOf, applyAll, tot, Option.bind]
   | removeTrack t =>
